@@ -70,6 +70,8 @@ func putForGrammar(b *gram.Built) *put {
 		switch entry {
 		case "bytes":
 			ast, err = b.P.ParseBytes(filename, in, opts...)
+		case "namedreader":
+			ast, err = b.P.Parse(filename, fixtures.NamedReader{Reader: bytes.NewReader(in)}, opts...)
 		case "reader", "slowreader":
 			ast, err = b.P.Parse(filename, bytes.NewReader(in), opts...)
 		default:
